@@ -49,6 +49,8 @@ def run(tier):
                      env={"OUTF": outf}, timeout=3000, xmx="16g")
     c.add_tlc("TypeClass_gen", gen, "ASSUME TreeSound over all trees; export")
     trees = vf.read_ndjson(outf)
+    if os.path.exists(outf + ".spines"):
+        trees += vf.read_ndjson(outf + ".spines")        # FullLeaves: depth-1 trees over 12 leaf spellings extended by one more leaf / unary operator
     cases = []
     for n, tr in enumerate(trees):
         txt = render(tr["t"])
